@@ -33,19 +33,29 @@ static bool limiter_recipe(std::string& why) {
     }
     return false;
 }
-static bool sequencer_recipe(std::string& why, bool tagmax) {
+static bool sequencer_run(std::string& why, const std::vector<size_t>& in, size_t expect_n, const char* note) {
     flow::graph g; std::vector<size_t> out;
     flow::sequencer_node<size_t> seq(g, [](const size_t& v) { return v; });
     flow::function_node<size_t, int> sink(g, 1, [&](const size_t& v) { out.push_back(v); return 0; });
     flow::make_edge(seq, sink);
-    std::vector<size_t> in = tagmax ? std::vector<size_t>{3, 1, 2, SIZE_MAX, 0} : std::vector<size_t>{3, 1, 2, 7, 5, 0, 4, 6};
     for (auto v : in) seq.try_put(v);
     g.wait_for_all();
-    size_t expect_n = tagmax ? 4 : 8;
     bool ok = out.size() >= expect_n;
     for (size_t i = 0; ok && i < expect_n; ++i) ok = out[i] == i;
-    if (!ok) { why = "sequencer_node<size_t> fed"; for (auto v : in) why += " " + std::to_string(v); why += ": emitted"; for (auto v : out) why += " " + std::to_string(v);
-               why += tagmax ? " -- the item numbered 3 is lost (the tag SIZE_MAX was accepted and overwrote its slot)" : ""; return true; }
+    if (!ok) { why = "sequencer_node<size_t> fed"; size_t k = 0; for (auto v : in) { if (++k > 12) { why += " ..."; break; } why += " " + std::to_string(v); }
+               why += ": emitted"; k = 0; for (auto v : out) { if (++k > 12) { why += " ..."; break; } why += " " + std::to_string(v); }
+               why += note; return true; }
+    return false;
+}
+static bool sequencer_recipe(std::string& why, bool tagmax) {
+    if (tagmax) return sequencer_run(why, {3, 1, 2, SIZE_MAX, 0}, 4, " -- the item numbered 3 is lost (the tag SIZE_MAX was accepted and overwrote its slot)");
+    if (sequencer_run(why, {3, 1, 2, 7, 5, 0, 4, 6}, 8, "")) return true;
+    // one far-ahead item first (forces a growth by more than one doubling), on a fresh node and after a few emissions
+    for (size_t prefix : {0u, 3u, 5u}) for (size_t jump = 1; jump <= 130; ++jump) {
+        std::vector<size_t> in; for (size_t i = 0; i < prefix; ++i) in.push_back(i);
+        in.push_back(prefix + jump); for (size_t i = prefix; i < prefix + jump; ++i) in.push_back(i);
+        if (sequencer_run(why, in, prefix + jump + 1, (" -- expected 0.." + std::to_string(prefix + jump) + " in order").c_str())) return true;
+    }
     return false;
 }
 int main(int argc, char** argv) {
